@@ -22,6 +22,11 @@ class MpfJSONEncoder(json.JSONEncoder):
         return str(o)
 
 
+def _has_byte_marker(message: bytes) -> bool:
+    """Return true if the line ends with the byte payload marker (and does not just contain it in a value)."""
+    return BYTE_MARKER in message and message.rsplit(BYTE_MARKER, 1)[1].isdigit()
+
+
 def decode_command_string(bcp_string) -> Tuple[str, dict]:
     """Decode a BCP command string into separate command and parameter parts.
 
@@ -153,8 +158,8 @@ class AsyncioBcpClientSocket():
             # strip newline
             message = message[0:-1]
 
-            if BYTE_MARKER in message:
-                message, bytes_needed = message.split(BYTE_MARKER)
+            if _has_byte_marker(message):
+                message, bytes_needed = message.rsplit(BYTE_MARKER, 1)
                 bytes_needed = int(bytes_needed)
 
                 raw_bytes = await self._receiver.readexactly(bytes_needed)
@@ -311,8 +316,8 @@ class BCPClientSocket(BaseBcpClient):
             # strip newline
             message = message[0:-1]
 
-            if BYTE_MARKER in message:
-                message, bytes_needed = message.split(b'&bytes=')
+            if _has_byte_marker(message):
+                message, bytes_needed = message.rsplit(BYTE_MARKER, 1)
                 bytes_needed = int(bytes_needed)
 
                 rawbytes = await self._receiver.readexactly(bytes_needed)
